@@ -85,11 +85,17 @@
   (def sh (dyn :c11-shape))
   (while (parser/has-more p)
     (def tup (parser/produce p true))
-    (def [l c] (tuple/sourcemap tup))
-    (buffer/format ev "V%d:%d " l c)
-    (c11/vprint (in tup 0) ev)
-    (buffer/push ev "\n")
-    (when sh (buffer/push sh "V" (type (in tup 0)) ";")))
+    (if (and (tuple? tup) (= 1 (length tup)))
+      (do
+        (def [l c] (tuple/sourcemap tup))
+        (buffer/format ev "V%d:%d " l c)
+        (c11/vprint (in tup 0) ev)
+        (when sh (buffer/push sh "V" (type (in tup 0)) ";")))
+      (do
+        # never happens on a healthy parser: has-more was true but produce gave no wrapped value
+        (buffer/push ev "V?:? not-a-wrapped-value ")
+        (c11/vprint tup ev)))
+    (buffer/push ev "\n"))
   (when (= :error (parser/status p))
     (def [l c] (parser/where p))
     (def m (parser/error p))
